@@ -828,3 +828,430 @@ def check_C18(ck):
             elif k == "ltneg":
                 want = "true" if F2.lt(a, F2.neg(a)) else "false"
                 ck.expect(impl == want, "order:fq2", c[1], impl, want, "lexicographic, u-coefficient most significant")
+
+
+# ====================================================================== C10 (MSM)
+
+def check_C10(ck):
+    rng = ck.rng
+    thorough = ck.tier == "thorough"
+    for tag in ("g1", "g2"):
+        g = grp(tag)
+        C = g.C
+        pool = [g.sub_pt(rng) for _ in range(5)] + [g.gen, None]
+        pool += [C.neg(pool[0]), pool[1]]            # inverse and duplicate entries
+        scal = [s for s in scalar_classes(rng, 4) if s[1] < 2 ** 255]
+        def msm(ps, ks):
+            acc = {}
+            for P, k in zip(ps, ks):
+                key = None if P is None else P
+                acc[key] = acc.get(key, 0) + k
+            tot = None
+            for P, k in acc.items():
+                tot = C.add(tot, C.mul(P, k % R if P is None or C.mul(P, R) is None else k))
+            return tot
+        cases, exp = [], []
+        def add_case(cl, op, ps, ks, want):
+            sp = ";".join(g.A(P) for P in ps) or "-"
+            sk = ";".join("%x" % k for k in ks) or "-"
+            cases.append((cl, "%s %s %s %s" % (tag, op, sp, sk))); exp.append(want)
+        windows = list(range(1, 9)) + [12, 16, 20] if not thorough else list(range(1, 21))
+        if tag == "g2" and not thorough:
+            windows = [1, 2, 3, 4, 5, 7, 11]
+        for w in windows:
+            shapes = [(0, 0), (1, 1), (2, 2), (3, 5), (5, 3), (7, 7)] if w <= 8 else [(3, 3)]
+            for (np_, nk) in shapes:
+                ps = [rng.choice(pool) for _ in range(np_)]
+                ks = [rng.choice(scal)[1] for _ in range(nk)]
+                n = min(np_, nk)
+                add_case("pip/w%d/n%d" % (w, n), "pip %x" % w, ps, ks, g.A(msm(ps[:n], ks[:n])))
+            # single bit at positions around word boundaries: walks the window across limbs
+            for bit in ([0, 1, 62, 63, 64, 65, 127, 128, 191, 192, 193, 253, 254] if not thorough else range(0, 255)):
+                P = pool[0]
+                add_case("pip/w%d/single-bit" % w, "pip %x" % w, [P, pool[1]], [1 << bit, (1 << 255) - 1 - (1 << bit)], g.A(msm([P, pool[1]], [1 << bit, (1 << 255) - 1 - (1 << bit)])))
+            # scalar with top bit set -> the assert fires
+            add_case("pip/w%d/top-bit-panic" % w, "pip %x" % w, [pool[0]], [1 << 255], "PANIC")
+        # default entry point around the window-selection boundaries
+        bounds = [0, 1, 2, 3, 19, 20, 21, 42, 43, 44, 104, 105, 106] + ([238, 239, 240, 577, 578, 579] if tag == "g1" or thorough else [])
+        if thorough:
+            bounds += [1257, 1258, 1259, 3463, 3464, 3465, 6491, 6492, 6493]
+        for n in bounds:
+            ps = [pool[rng.randrange(len(pool))] for _ in range(n)]
+            ks = [rng.randrange(2 ** 255) for _ in range(n)]
+            add_case("sop/n%d" % n, "sop", ps, ks, g.A(msm(ps, ks)))
+        add_case("sop/mismatch", "sop", pool[:4], [3, 5], g.A(msm(pool[:2], [3, 5])))
+        for n in (0, 1, 2, 3, 5):
+            ps = [rng.choice([p for p in pool]) for _ in range(n)]
+            ks = [rng.choice(scalar_classes(rng, 2, allow_big=True))[1] for _ in range(n)]
+            add_case("soppre/n%d" % n, "soppre", ps, ks, g.A(msm(ps, ks)))
+        res = ck.run(cases)
+        for c, (impl, _), want in zip(cases, res, exp):
+            ck.expect(impl == want, "msm:" + c[0].split("/")[0], c[1], impl, want, "sum [k_i]P_i over the first min entries")
+        fw = [("findwin", "%s findwin %x" % (tag, n)) for n in [0, 1, 2, 19, 20, 42, 43, 104, 105, 238, 239, 577, 578, 1257, 1258, 3463, 3464, 6491, 6492, 17145, 17146,
+                                                                33675, 33676, 60318, 60319, 218188, 218189, 303279, 303280, 543650, 543651, 10 ** 7, 2 ** 40]]
+        prev = 0
+        for c, (impl, _) in zip(fw, ck.run(fw)):
+            ok = impl.isdigit() and 1 <= int(impl) <= 16 and int(impl) >= prev
+            prev = int(impl) if impl.isdigit() else prev
+            ck.expect(ok, "findwin-range", c[1], impl, "1..=16, monotone", "window heuristic range")
+
+
+# ====================================================================== C13 / C06 (hashing)
+
+def _msgs(rng, thorough):
+    lens = [0, 1, 3, 55, 56, 63, 64, 65, 111, 112, 127, 128, 129, 135, 136, 167, 168] + ([200, 1024] if not thorough else [169, 255, 256, 1000, 1024, 4096, 65536])
+    return [bytes(rng.randrange(256) for _ in range(l)) for l in lens]
+
+
+def _dsts(rng):
+    return [bytes(rng.randrange(256) for _ in range(l)) for l in (0, 1, 16, 43, 254, 255)]
+
+
+def check_C13(ck):
+    rng = ck.rng
+    thorough = ck.tier == "thorough"
+    cases, exp = [], []
+    msgs, dsts = _msgs(rng, thorough), _dsts(rng)
+    hx = lambda b: b.hex() or "-"
+    for (hn, pyn, olen) in (("sha256", "sha256", None), ("sha512", "sha512", None), ("shake128", "shake_128", 77), ("shake256", "shake_256", 200)):
+        import hashlib
+        for m in msgs:
+            if olen is None:
+                cases.append(("hash/" + hn, "hash %s %s" % (hn, hx(m)))); exp.append(hashlib.new(pyn, m).hexdigest())
+            else:
+                cases.append(("hash/" + hn, "hash %s %s %x" % (hn, hx(m), olen))); exp.append(hashlib.new(pyn, m).hexdigest(olen))
+    for x in ("xmd256", "xmd512", "xof128", "xof256"):
+        b = 32 if x == "xmd256" else 64
+        lens = [0, 1, 31, 32, 33, 64, 65, 127, 128, 129, 255 * b - 1, 255 * b] if x.startswith("xmd") else [0, 1, 32, 136, 137, 168, 169, 500, 8160, 65535]
+        ex = O.expander(x)
+        for l in lens:
+            for (m, d) in [(rng.choice(msgs), rng.choice(dsts)) for _ in range(2)] + [(msgs[0], dsts[0])]:
+                want = ex(m, d, l)
+                cases.append(("expand/%s/len%d" % (x, l), "expand %s %s %s %x" % (x, hx(m), hx(d), l))); exp.append(hx(want))
+        if x.startswith("xmd"):
+            for l in (255 * b + 1, 256 * b, 65535):
+                cases.append(("expand/%s/too-long" % x, "expand %s %s %s %x" % (x, hx(msgs[1]), hx(dsts[2]), l))); exp.append("PANIC")
+        for (fld, m_, L, p) in (("fq", 1, 64, Q), ("fr", 1, 48, R), ("fq2", 2, 64, Q)):
+            for cnt in ([0, 1, 2, 3, 5, 9] if x in ("xmd256", "xof128") or thorough else [2]):
+                m, d = rng.choice(msgs), rng.choice(dsts)
+                want = O.hash_to_field(x, m, d, cnt, m_, L, p)
+                if want is None:
+                    w = "PANIC"
+                else:
+                    w = ";".join(("%x" % e) if m_ == 1 else ("%x,%x" % e) for e in want) or "-"
+                cases.append(("h2f/%s/%s/count%d" % (fld, x, cnt), "h2f %s %s %s %s %x" % (fld, x, hx(m), hx(d), cnt))); exp.append(w)
+    # reduction blocks
+    for (fld, L, p) in (("fq", 64, Q), ("fr", 48, R)):
+        blocks = [bytes([0xff] * L), bytes(L), (p).to_bytes(L, "big"), (p + 1).to_bytes(L, "big"), (p * 12345 + 7).to_bytes(L, "big"),
+                  bytes([0xff] * (L // 2)) + bytes(L // 2), bytes(L // 2) + bytes([0xff] * (L // 2))] + [bytes(rng.randrange(256) for _ in range(L)) for _ in range(6)]
+        for bk in blocks:
+            cases.append(("okm/" + fld, "okm %s %s" % (fld, bk.hex()))); exp.append("%x" % (int.from_bytes(bk, "big") % p))
+    for _ in range(4):
+        bk = bytes(rng.randrange(256) for _ in range(128))
+        cases.append(("okm/fq2", "okm fq2 %s" % bk.hex())); exp.append("%x,%x" % (int.from_bytes(bk[:64], "big") % Q, int.from_bytes(bk[64:], "big") % Q))
+    res = ck.run(cases)
+    for c, (impl, _), want in zip(cases, res, exp):
+        ck.expect(impl == want, "rfc9380-5:" + c[0].split("/")[0], c[1], impl, want, "RFC 9380 section 5 (python hashlib reference)")
+
+
+def _rfc_map(g, us):
+    """clear_cofactor(sum_i iso(sswu(u_i))) using the driver-independent parts only where possible:
+    sswu from the python oracle; iso must be evaluated by the caller (we have no independent coefficients)"""
+    raise NotImplementedError
+
+
+def _compose_map(ck, g, tag, us_list, klass):
+    """spec composition for map/map2: python sswu -> `iso` op (checked separately in C16, and the image is
+    checked here to be on the target curve) -> python group law on the target curve -> python [h_eff]."""
+    K, C = g.K, g.C
+    flat = [u for us in us_list for u in us]
+    sw = [g.sswu(u) for u in flat]
+    iso_cases = [("iso-of-sswu", "%s iso %s" % (tag, g.J(P))) for P in sw]
+    ires = ck.run(iso_cases)
+    imgs = []
+    for (impl, model) in ires:
+        P = g.pa(impl)
+        imgs.append(P)
+    out, k = [], 0
+    for us in us_list:
+        acc = None
+        for _ in us:
+            acc = C.add(acc, imgs[k]); k += 1
+        out.append(C.mul(acc, g.heff))
+    return out, sw, imgs
+
+
+def check_C14(ck):
+    rng = ck.rng
+    thorough = ck.tier == "thorough"
+    for tag in ("g1", "g2"):
+        g = grp(tag)
+        K, C = g.K, g.C
+        Z = K.from_int(O.SSWU_Z1) if tag == "g1" else O.SSWU_Z2
+        us = [K.zero, K.one, K.neg(K.one)] + [K.rand(rng) for _ in range(4 if not thorough else 30)]
+        if tag == "g1":
+            # exceptional u: Z^2 u^4 + Z u^2 = 0  <=>  u^2 = -1/Z
+            s = O.fsqrt((-O.finv(O.SSWU_Z1)) % Q)
+            if s is not None:
+                us += [s, (-s) % Q]
+        else:
+            us += [(rng.randrange(Q), 0), (0, rng.randrange(Q))]
+        singles = [[u] for u in us]
+        pairs = []
+        for u in us[:6]:
+            v = K.rand(rng)
+            pairs.append(("random", [u, v]))
+            pairs.append(("u0=u1", [u, u]))
+            pairs.append(("u0=-u1", [u, K.neg(u)]))
+            if not K.is_zero(u):
+                # second preimage with the same SSWU x: u' = 1/(Z u) up to sign when g(x1) is a non-square
+                up = K.inv(K.mul(Z, u))
+                for cand in (up, K.neg(up)):
+                    if g.sswu(cand) == g.sswu(u) and cand != u:
+                        pairs.append(("distinct-colliding", [u, cand]))
+                    if g.sswu(cand) == g.CP.neg(g.sswu(u)) and cand != K.neg(u):
+                        pairs.append(("distinct-opposite", [u, cand]))
+        want1, _, imgs1 = _compose_map(ck, g, tag, singles, "map")
+        for P in imgs1:
+            ck.expect(C.on_curve(P), "iso-image-on-target", "iso(sswu(u))", g.A(P), "on E", "isogeny image lies on the target curve")
+        c1 = [("map/u", "%s map %s" % (tag, K.show(u))) for u in us]
+        for c, (impl, _), want in zip(c1, ck.run(c1), want1):
+            ck.expect(impl == g.A(want), "map", c[1], impl, g.A(want), "clear_cofactor(iso(sswu(u)))")
+        want2, _, _ = _compose_map(ck, g, tag, [p[1] for p in pairs], "map2")
+        c2 = [("map2/" + cl, "%s map2 %s %s" % (tag, K.show(p[0]), K.show(p[1]))) for (cl, p) in pairs]
+        for (cl, p), c, (impl, _), want in zip(pairs, c2, ck.run(c2), want2):
+            ck.expect(impl == g.A(want), "map2:" + cl, c[1], impl, g.A(want), "clear_cofactor(iso(sswu(u0)) + iso(sswu(u1)))")
+            if cl == "u0=-u1":
+                ck.expect(impl == "inf", "map2:u0=-u1", c[1], impl, "inf", "identity for opposite inputs")
+
+
+def check_C06(ck):
+    rng = ck.rng
+    thorough = ck.tier == "thorough"
+    msgs, dsts = _msgs(rng, thorough), _dsts(rng)
+    hx = lambda b: b.hex() or "-"
+    for tag in ("g1", "g2"):
+        g = grp(tag)
+        K, C = g.K, g.C
+        combos = []
+        for x in ("xmd256", "xmd512", "xof128", "xof256"):
+            for mode in ("ro", "nu"):
+                picks = [(rng.choice(msgs), rng.choice(dsts)) for _ in range(2 if not thorough else 8)] + [(msgs[0], dsts[0])]
+                if x == "xmd256":
+                    picks += [(m, dsts[3]) for m in msgs[:: (3 if not thorough else 1)]]
+                for (m, d) in picks:
+                    combos.append((x, mode, m, d))
+        m_, L = (1, 64) if tag == "g1" else (2, 64)
+        us_list = [O.hash_to_field(x, m, d, 2 if mode == "ro" else 1, m_, L, Q) for (x, mode, m, d) in combos]
+        want, _, _ = _compose_map(ck, g, tag, us_list, "h2c")
+        cases = [("h2c/%s/%s" % (x, mode), "h2c %s %s %s %s %s" % (tag, x, mode, hx(m), hx(d))) for (x, mode, m, d) in combos]
+        res = ck.run(cases)
+        for c, (impl, _), w in zip(cases, res, want):
+            ck.expect(impl == g.A(w), "rfc-suite:" + c[0], c[1], impl, g.A(w), "hash_to_field -> SSWU -> isogeny -> add -> clear cofactor (RFC 9380)")
+            try:
+                P = g.pa(impl)
+                ck.expect(C.mul(P, R) is None and C.on_curve(P), "subgroup", c[1], impl, "[r]P=O", "result in the order-r subgroup")
+            except Exception:
+                ck.expect(False, "subgroup", c[1], impl, "a point", "result in the order-r subgroup")
+        # determinism: same call twice in the same process
+        rep = cases[:3] + cases[:3]
+        rr = ck.run(rep)
+        for i in range(3):
+            ck.expect(rr[i][0] == rr[i + 3][0], "depends-only-on-(msg,dst)", rep[i][1], rr[i + 3][0], rr[i][0], "same (msg, dst) gives the same point")
+
+
+# ====================================================================== C15 / C16 / C17
+
+def check_C15(ck):
+    rng = ck.rng
+    thorough = ck.tier == "thorough"
+    for tag in ("g1", "g2"):
+        g = grp(tag)
+        K = g.K
+        us = [K.zero, K.one, K.neg(K.one)]
+        if tag == "g1":
+            s = O.fsqrt((-O.finv(O.SSWU_Z1)) % Q)
+            us += [s, (-s) % Q]
+        else:
+            us += [(rng.randrange(Q), 0), (0, rng.randrange(Q)), (1, 1), (0, 1)]
+        # fill every (which candidate is square) x (sign of t) class (the multiplier class is recorded from outputs)
+        hist = {}
+        need = 3 if not thorough else 25
+        tries = 0
+        while tries < 4000 and (len(hist) < 4 or min(hist.values()) < need):
+            tries += 1
+            u = K.rand(rng)
+            P = g.sswu(u)
+            # which candidate: x == x1 ?
+            first = (g.sswu.__name__ and P[0] == _x1(g, u))
+            key = (first, K.sgn0(u))
+            if hist.get(key, 0) < need:
+                hist[key] = hist.get(key, 0) + 1
+                us.append(u)
+        cases = [("osswu/" + ("first" if (g.sswu(u)[0] == _x1(g, u)) else "second") + "/sgn%d" % K.sgn0(u), "%s osswu %s" % (tag, K.show(u))) for u in us]
+        res = ck.run(cases)
+        for u, c, (impl, _) in zip(us, cases, res):
+            want = g.sswu(u)
+            try:
+                x, y, z = [O.parse_f(K, t) for t in impl.split("/")]
+                zi = K.inv(z)
+                zi2 = K.mul(zi, zi)
+                got = (K.mul(x, zi2), K.mul(y, K.mul(zi2, zi)))
+            except Exception:
+                got = None
+            ck.expect(got == want and g.CP.on_curve(want), "sswu:" + c[0].split("/")[1], c[1], impl, g.A(want), "RFC 9380 map_to_curve_simple_swu (python transcription)")
+
+
+def _x1(g, u):
+    K, CP = g.K, g.CP
+    Z = K.from_int(O.SSWU_Z1) if g.tag == "g1" else O.SSWU_Z2
+    zu2 = K.mul(Z, K.mul(u, u))
+    tv1 = K.add(K.mul(zu2, zu2), zu2)
+    if K.is_zero(tv1):
+        return K.mul(CP.b, K.inv(K.mul(Z, CP.a)))
+    return K.mul(K.mul(K.neg(CP.b), K.inv(CP.a)), K.add(K.one, K.inv(tv1)))
+
+
+def check_C16(ck):
+    rng = ck.rng
+    thorough = ck.tier == "thorough"
+    for tag in ("g1", "g2"):
+        g = grp(tag)
+        K, C, CP = g.K, g.C, g.CP
+        pts = [CP.random_point(rng) for _ in range(6 if not thorough else 40)]
+        pts += [g.sswu(K.zero), g.sswu(K.one)]
+        cases = []
+        for P in pts:
+            cases.append(("iso/z1", "%s iso %s" % (tag, g.J(P))))
+            cases.append(("iso/other-rep", "%s iso %s" % (tag, g.J(P, g.lam(rng)))))
+        cases.append(("iso/identity", "%s iso %s" % (tag, g.J(None))))
+        res = ck.run(cases)
+        img = {}
+        for i, P in enumerate(pts):
+            a, b = res[2 * i][0], res[2 * i + 1][0]
+            ck.expect(a == b, "representation-independent", cases[2 * i + 1][1], b, a, "same image for every Jacobian representative")
+            try:
+                I = g.pa(a)
+                ck.expect(C.on_curve(I), "image-on-target", cases[2 * i][1], a, "on E", "image is a point of the target curve")
+                img[i] = I
+            except Exception:
+                ck.expect(False, "image-on-target", cases[2 * i][1], a, "a point", "image parse")
+        ck.expect(res[-1][0] == "inf", "identity->identity", cases[-1][1], res[-1][0], "inf", "identity maps to identity")
+        # homomorphism (tested, not proved): iso(P+Q) = iso(P)+iso(Q) with + on E' by the a != 0 law
+        hc, exp = [], []
+        idx = list(img.keys())
+        pairs = [(rng.choice(idx), rng.choice(idx)) for _ in range(6 if not thorough else 40)] + [(idx[0], idx[0])]
+        for (i, j) in pairs:
+            S = CP.add(pts[i], pts[j])
+            hc.append(("hom/sum", "%s iso %s" % (tag, g.J(S, g.lam(rng))))); exp.append(g.A(C.add(img[i], img[j])))
+        i = idx[0]
+        hc.append(("hom/neg", "%s iso %s" % (tag, g.J(CP.neg(pts[i]))))); exp.append(g.A(C.neg(img[i])))
+        for c, (impl, _), want in zip(hc, ck.run(hc), exp):
+            ck.expect(impl == want, "homomorphism(test)", c[1], impl, want, "image of a sum = sum of images")
+        # degree check (ties the coefficients to an isogeny of the stated degree): the image has order r for subgroup-ish inputs is not available;
+        # instead: [deg] kernel -- kernel points map to identity: rational roots of XD found through the model are exercised in the Lean KATs.
+
+
+def check_C17(ck):
+    rng = ck.rng
+    thorough = ck.tier == "thorough"
+    for tag in ("g1", "g2"):
+        g = grp(tag)
+        C = g.C
+        pts = [("identity", None), ("generator", g.gen)] + [("full-curve", g.full(rng)) for _ in range(4 if not thorough else 30)]
+        pts += [("order-%d" % l, g.low(l, rng)) for l in g.small]
+        pts.append(("low+subgroup", C.add(g.low(g.small[0], rng), g.sub_pt(rng))))
+        pts.append(("low+low", C.add(g.low(g.small[0], rng), g.low(g.small[1], rng))))
+        cases, exp = [], []
+        for (cl, P) in pts:
+            for rep in range(2):
+                cases.append(("clearh/" + cl, "%s clearh %s" % (tag, g.J(P, g.lam(rng) if rep else None)))); exp.append(C.mul(P, g.heff))
+        if tag == "g1":
+            for (cl, P) in pts[:6]:
+                cases.append(("chain_z/" + cl, "chain z g1 %s" % g.J(P, g.lam(rng)))); exp.append(C.mul(P, 0xd201000000010000))
+        res = ck.run(cases)
+        for c, (impl, _), want in zip(cases, res, exp):
+            ck.expect(impl == g.A(want), "heff:" + c[0].split("/")[0], c[1], impl, g.A(want), "[h_eff]P on the whole curve")
+            if c[0].startswith("clearh"):
+                ck.expect(C.mul(want, R) is None, "clears-cofactor(test)", c[1], g.A(want), "[r][h_eff]P = O", "result in the order-r subgroup")
+        # additivity on impl outputs
+        P, Qp = pts[2][1], pts[3][1]
+        (a, _), (b, _), (s, _) = ck.run([("additive", "%s clearh %s" % (tag, g.J(X))) for X in (P, Qp, C.add(P, Qp))])
+        try:
+            ck.expect(g.pa(s) == C.add(g.pa(a), g.pa(b)), "additive", "clearh(P+Q)", s, "clearh(P)+clearh(Q)", "additive")
+        except Exception:
+            ck.expect(False, "additive", "clearh(P+Q)", s, "points", "additive")
+    # field chains
+    cc = []
+    for _ in range(4):
+        a = rng.randrange(Q); cc.append(("chain/pm3div4", "chain pm3div4 %x" % a, "%x" % pow(a, (Q - 3) // 4, Q)))
+        b = F2.rand(rng); cc.append(("chain/p2m9div16", "chain p2m9div16 %s" % F2.show(b), F2.show(F2.pow(b, (Q * Q - 9) // 16))))
+    for (cl, line, want), (impl, _) in zip(cc, ck.run([(c[0], c[1]) for c in cc])):
+        ck.expect(impl == want, "field-chain", line, impl, want, "x^((q-3)/4), x^((q^2-9)/16)")
+
+
+# ====================================================================== C20 (determinism / concurrency)
+
+def check_C20(ck):
+    """history independence + purity audit + concurrent differential run (a test, labelled as such)"""
+    import os, re, subprocess, threading
+    rng = ck.rng
+    repo = os.environ.get("PP_REPO", "/repo")
+    # (1) purity audit of the source: no shared mutable state
+    pat = re.compile(r"static\s+mut|\bCell<|RefCell|Atomic[A-Z]|\bMutex\b|RwLock|thread_local!|lazy_static|OnceCell|Once\b|\bstatic\s+[A-Z_]+\s*:")
+    hits, unsafe_hits = [], []
+    for root, _, files in os.walk(os.path.join(repo, "src")):
+        for fn in files:
+            if fn.endswith(".rs"):
+                p = os.path.join(root, fn)
+                src = open(p).read()
+                # strip test modules is not attempted: any occurrence counts
+                for ln, line in enumerate(src.split("\n"), 1):
+                    code = line.split("//")[0]
+                    if pat.search(code):
+                        hits.append("%s:%d:%s" % (os.path.relpath(p, repo), ln, code.strip()[:60]))
+                    if re.search(r"\bunsafe\b", code):
+                        unsafe_hits.append("%s:%d:%s" % (os.path.relpath(p, repo), ln, code.strip()[:70]))
+    ck.oblige("audit:no-shared-mutable-state", not hits, "; ".join(hits[:5]))
+    allowed_unsafe = re.compile(r"transmute|as_tuple_mut|unsafe fn|# Safety")
+    bad_unsafe = [h for h in unsafe_hits if not allowed_unsafe.search(h)]
+    ck.oblige("audit:unsafe-only-in-listed-constructors", not bad_unsafe, "; ".join(bad_unsafe[:5]))
+    # (2) history independence + concurrency: a mixed workload, run once sequentially, then the same lines
+    #     from 16 concurrently running executor processes AND inside one process in shuffled order
+    g1, g2 = grp("g1"), grp("g2")
+    work = []
+    for _ in range(6):
+        P, Qp = g1.sub_pt(rng), g2.sub_pt(rng)
+        k = rng.randrange(R)
+        work += ["g1 mul %s %x" % (g1.J(P, g1.lam(rng)), k), "g2 affmul %s %x" % (g2.A(Qp), k),
+                 "g1 wnaf 4 %s %x" % (g1.J(P), k), "pairing %s %s" % (g1.A(P), g2.A(Qp)),
+                 "h2c g1 xmd256 ro %s 51" % bytes(rng.randrange(256) for _ in range(9)).hex(),
+                 "g1 wnafhist bs:%s:5:%x;sb:%x:%s;bs:%s:300:%x" % (g1.J(P), k, k, g1.J(g1.gen), g1.J(P), k // 3),
+                 "g2 pip 4 %s;%s %x;%x" % (g2.A(Qp), g2.A(g2.gen), k, k // 7),
+                 "g1 enc_c %s" % g1.A(P), "fq12 frob %s 7" % O.show_f12(O.f12_unflat([rng.randrange(Q) for _ in range(12)]))]
+    base = ck.run([("sequential", w) for w in work])
+    ref = [a for (a, _) in base]
+    # same lines in a different order inside one process (call-history independence)
+    order = list(range(len(work)))
+    rng.shuffle(order)
+    shuf = ck.run([("shuffled-history", work[i]) for i in order] + [("repeat", work[i]) for i in order[:10]])
+    for pos, i in enumerate(order):
+        ck.expect(shuf[pos][0] == ref[i], "history-independent", work[i], shuf[pos][0], ref[i], "same result whatever was called before")
+    for pos, i in enumerate(order[:10]):
+        ck.expect(shuf[len(order) + pos][0] == ref[i], "repeatable", work[i], shuf[len(order) + pos][0], ref[i], "evaluating again gives the same bits")
+    # 16 processes at once (exercises nothing shared between processes; threads inside one process are covered by the thread mode below)
+    import runner
+    inp = "\n".join(work) + "\n"
+    outs = [None] * 16
+    def go(i):
+        r = subprocess.run([runner.PPEXEC, "--threads", "16"], input=inp, stdout=subprocess.PIPE, stderr=subprocess.DEVNULL, text=True)
+        outs[i] = r.stdout.split("\n")[:len(work)]
+    th = [threading.Thread(target=go, args=(i,)) for i in range(4)]
+    for t in th: t.start()
+    for t in th: t.join()
+    for i in range(4):
+        ck.evaluations += len(work)
+        ck.classes["16-threads-one-process"] = ck.classes.get("16-threads-one-process", 0) + len(work)
+        for j, w in enumerate(work):
+            got = outs[i][j] if outs[i] and j < len(outs[i]) else "<missing>"
+            ck.expect(got == ref[j], "concurrent", w, got, ref[j], "bit-identical under 16 concurrent threads")
